@@ -46,6 +46,11 @@ fold('count_aff', 'Dict[Name,Application]', 'lambda a, x: 1 if a.affinity.name =
      params=['Name'], ret='Int')
 
 
+# type invariant of inputs (API schema: memory/cpu/disk are non-negative quantities); `demand` is written only by
+# Application.__init__
+axiom('demand-nonneg', 'forall(lambda a: vec_ge(a.demand, vec_zero()), "Application")',
+      note='instance demand vectors are non-negative (manifest schema)')
+
 # ------------------------------------------------------------------ invariants (DESIGN 4.3)
 @spec
 def is_bucket(r):
@@ -56,6 +61,8 @@ def is_bucket(r):
 def inv_server(s):
     """InvServer: capacity accounting and the server->instance view."""
     return (vec_eq(s.free_capacity, s.init_capacity - sum_demand(s.apps)) and
+            # the summed demand does not exceed the declared capacity
+            vec_ge(s.free_capacity, vec_zero()) and
             forall(lambda n: implies(n in s.apps, s.apps[n].name == n and s.apps[n].server == s.name), 'Name'))
 
 
